@@ -67,7 +67,7 @@ CHECKS = {
    "5.2"),
  "C16": (True, "kvvmc", "model_checking",
    "explicit-state BFS over the real MemoryKVVStore/RedbKVVStore/CloudKVVStore against a BTreeMap reference (closes)",
-   "Every operation sequence over 2 prefix-related keys, 3-4 versions and 3 values (incl. all batches of <=2 entries and a reopen letter) is executed on the real stores in lock-step with a map reference; the canonical state set closes (100 store states quick), every read is compared after every step. Cloud store: all protocol-legal transactions of bounded length.",
+   "Every operation sequence over 2 prefix-related keys, 3-4 versions and 3 values (incl. all batches of <=2 entries and a reopen letter) is executed on the real stores in lock-step with a map reference; the canonical state set closes (100 store states quick), every read is compared after every step. Cloud store: all protocol-legal transactions of bounded length; every commit is also run on a twin store whose local store stops after n write operations (n = 0..), and must leave none or all of the reported mutations.",
    "Trusts redb itself and /dev/shm as a file system; torn writes inside redb are out of scope. Duplicate-key batches are compared between backends and against all-or-nothing/monotonicity only.",
    "7.1"),
  "C04": (True, "c04", "model_checking",
@@ -97,12 +97,12 @@ CHECKS = {
    "4.5"),
  "C19": (True, "wirert", "model_checking",
    "exhaustive enumeration, per message type of the registry (code generated from msgs.rs at check time), of the base value, every single field deviation and (thorough) every pair over per-type value alphabets; field-by-field and byte-level round-trip oracle, semantic oracle for streamed PSBTs",
-   "tools/gen_wire.py parses every #[message_id] struct and the Message enum of vls-protocol/src/msgs.rs before each build and emits a builder and a checker per type (109 types; a struct missing from the parse, a count mismatch with the enum or a field type without an alphabet is a machinery failure). Alphabets: integers {position-dependent base, 0, 1, max}, fixed arrays {pattern, zeros, 0xff}, Octets {short, empty, 1, 65535 bytes}, LargeOctets up to 70000, fillers that make the whole message exactly 128 KiB long, arrays {one, none, three, one element per element deviation}, options present / absent, strings, transactions (minimal, two inputs with witnesses, 20 outputs), PSBTs (bare, witness utxo, non-witness utxo, paths and scripts), block headers, proofs built with txoo, and for streamed PSBTs every sequence of 1-2 (selected 3) inputs over {previous tx segwit / legacy / + matching witness utxo / + contradicting witness utxo, witness utxo only, nothing}. Oracle: msgs::from_vec(m.as_vec()) yields the same variant, every field encoded on its own is byte-identical before and after, the decoded message re-encodes to the original bytes, the typed decoder agrees; for streamed PSBTs the decoded transaction, per-input previous outputs, segwit flags, scripts and paths equal those implied by the encoded PSBT.",
+   "tools/gen_wire.py parses every #[message_id] struct and the Message enum of vls-protocol/src/msgs.rs before each build and emits a builder and a checker per type (109 types; a struct missing from the parse, a count mismatch with the enum or a field type without an alphabet is a machinery failure). Alphabets: integers {position-dependent base, 0, 1, max}, fixed arrays {pattern, zeros, 0xff}, Octets {short, empty, 1, 65535 bytes}, LargeOctets up to 70000, fillers that make the whole message exactly 128 KiB long, arrays {one, none, three, one element per element deviation}, options present / absent, strings, transactions (minimal, two inputs with witnesses, 20 outputs), PSBTs (bare, witness utxo, non-witness utxo, paths and scripts), block headers, proofs built with txoo, and for streamed PSBTs every sequence of 1-2 (selected 3) inputs over {previous tx segwit / legacy / + matching witness utxo / + contradicting witness utxo, witness utxo only, nothing}. Oracle: msgs::from_vec(m.as_vec()) yields the same variant, every field encoded on its own is byte-identical before and after, the decoded message re-encodes to the original bytes, the typed decoder agrees; base cases and single deviations also travel as two length-framed messages over a transport that delivers 1 / 64 / 4096 bytes per read (read_raw returns the encoding unchanged, read decodes the same message type); for streamed PSBTs the decoded transaction, per-input previous outputs, segwit flags, scripts and paths equal those implied by the encoded PSBT.",
    "Trailing bytes / proper prefixes are recorded as observations only. Developer-only message types are not in the build under test. A PSBT whose witness utxo contradicts its previous transaction may be refused by the decoder.",
    "7.4"),
  "C20": (True, "concur", "model_checking",
    "stateless model checking of the real Node under shuttle's runtime with an own preemption-bounded depth-first scheduler (iterative context bounding); linearizability by brute force against all sequential orders",
-   "vls-core is built with --cfg vls_verif so that every Mutex of its prelude (node state, channel map, channel slots, tracker, monitor state, stores) is shuttle's. For each of ~120 scenarios (every unordered pair of 14 request kinds, twelve of them also against themselves - commitment updates, forget/new/setup channel, balance, heartbeat, keysend, on-chain check and signature, block with the channel's close (compact and streamed), empty block, allowlist - plus the single-channel races validate||revoke, sign-holder||revoke, sign-counterparty||counterparty-revocation, two allowlist updates, a channel used while it is being set up, two channels paying the same invoice, a balance query beside a thread that closes two of three channels one after the other; thorough adds triples) every schedule of the request threads with <= 1 (2) preemptions is executed to completion on a freshly built node, and <= 2 (3) preemptions as far as the budget goes; a schedule that cannot complete is a deadlock, and the tuple (replies, fingerprint of live state and store) must equal that of some sequential order of the same requests that keeps each thread's own order.",
+   "vls-core is built with --cfg vls_verif so that every Mutex of its prelude (node state, channel map, channel slots, tracker, monitor state, stores) is shuttle's. For each of ~120 scenarios (every unordered pair of 14 request kinds, twelve of them also against themselves - commitment updates, forget/new/setup channel, balance, heartbeat, keysend, on-chain check and signature, block with the channel's close (compact and streamed), empty block, allowlist - plus the single-channel races validate||revoke, sign-holder||revoke, sign-counterparty||counterparty-revocation, two allowlist updates, a channel used while it is being set up, two channels paying the same invoice, a balance query beside a thread that closes two of three channels one after the other, two approvals while the wall clock (a third thread) crosses a velocity bucket boundary; thorough adds triples) every schedule of the request threads with <= 1 (2) preemptions is executed to completion on a freshly built node, and <= 2 (3) preemptions as far as the budget goes; a schedule that cannot complete is a deadlock, and the tuple (replies, fingerprint of live state and store) must equal that of some sequential order of the same requests that keeps each thread's own order.",
    "Scheduling points are mutex operations (sequentially consistent); locks taken directly from std (redb store) are not in the scenarios. Replaying a prefix with a different enabled set is a machinery error.",
    "8"),
 }
